@@ -92,6 +92,44 @@ func TestC19Reg_CertResultsOrderId256(t *testing.T) {
 	}
 }
 
+// Same finding, second member of the class: addresses inside the DEX batch of certificate results are not length-checked
+// (DexBatch.CheckBasic) and become the account key segment when the order is paid out.
+func TestC19Reg_CertResultsDexAddress256(t *testing.T) {
+	var vals []chainsim.ValSpec
+	for i := 0; i < certVals; i++ {
+		vals = append(vals, chainsim.ValSpec{Key: i, OutputKey: -1, Stake: 1_000_000, Committees: []uint64{certRoot, certNested}})
+	}
+	pools := []*fsm.Pool{{Id: certNested + fsm.LiquidityPoolAddend, Amount: 1_000_000}}
+	g := chainsim.BuildGenesis(certRoot, vals, []chainsim.AcctSpec{{Kind: 0, Key: 0, Amount: 1_000_000_000}}, pools, nil)
+	c, err := chainsim.New(chainsim.Opts{Genesis: g, ChainID: certRoot})
+	if err != nil {
+		t.Fatal(err)
+	}
+	defer c.Close()
+	for i := 0; i < 3; i++ {
+		if out, err := c.Block(chainsim.BlockSpec{}); err != nil || out.Err != nil {
+			t.Fatal(err, out.Err)
+		}
+	}
+	w := &world{c: c}
+	send, _, err := c.SignTx(keys.BLS(0), &fsm.MessageSend{FromAddress: chainsim.Addr(keys.BLS(0)), ToAddress: chainsim.Addr(keys.Ed(9)), Amount: 1}, 10000, c.Height(), "")
+	if err != nil {
+		t.Fatal(err)
+	}
+	res := &lib.CertificateResult{
+		RewardRecipients: &lib.RewardRecipients{PaymentPercents: []*lib.PaymentPercents{{Address: chainsim.Addr(keys.Ed(40)), Percent: 10, ChainId: certNested}}},
+		SlashRecipients:  &lib.SlashRecipients{},
+		DexBatch:         &lib.DexBatch{Committee: certRoot, PoolSize: 1_000_000, Orders: []*lib.DexLimitOrder{{AmountForSale: 1000, RequestedAmount: 1, Address: bytes.Repeat([]byte{0xF0}, 300), OrderId: crypto.Hash([]byte("o"))[:20]}}},
+	}
+	raw := certWith(t, w, res, 9)
+	o := w.runTx(raw)
+	aerr, inc, failed, _ := w.proposeWith(send, raw)
+	if o.panicked != "" || aerr != nil {
+		t.Errorf("certificate results whose DEX batch carries a limit order with a 300-byte address (passes CheckBasic/Check, really signed by the committee): state machine panics (%s); proposer-mode ApplyBlock of [valid send, this tx] = %v (included=%d failed=%d)",
+			firstLine(o.panicked), aerr, inc, failed)
+	}
+}
+
 // Decided: a nil / empty order id on delete-order and edit-order (KeyForOrder(chain, nil) is the order-book prefix itself)
 // is a clean rejection and touches nothing.
 func TestC19cNilOrderId(t *testing.T) {
